@@ -1,7 +1,8 @@
 // C05 harness: the real Part 21 reader/writer under ASan+UBSan, driven over files and over single functions.
 //
 //   h_p21safe files <listfile>
-//       listfile lines:  <mode> <budget_seconds> <path>      mode: x = exchange file, w = working-session file
+//       listfile lines:  <mode> <budget_seconds> <path | hex:<bytes>>     mode: x = exchange file, w = working-session file
+//       (hex: the bytes are written to a private temporary file first — the reader re-opens the file by name for pass 2)
 //       per input:  "B <idx>"  (before),  then
 //                   "E <idx> sev=<int> ord=<0|1> n=<instances> out=<bytes written> ms=<wall>"  (after)
 //       read (ReadExchangeFile | ReadWorkingFile) -> WriteExchangeFile -> WriteWorkingFile, all on fresh objects.
@@ -64,11 +65,24 @@ static bool ordinary( int s ) {
     return false;
 }
 
+static std::string unhex( const std::string & h );
+
 static int run_files( const char * listfile ) {
     std::ifstream lf( listfile );
     std::string mode, path;
     int budget, idx = 0;
+    char tmpname[256];
+    const char * td = getenv( "C05_TMPDIR" );
+    snprintf( tmpname, sizeof tmpname, "%s/h_p21safe.%d.p21", td ? td : "/tmp", ( int )getpid() );
     while( lf >> mode >> budget >> path ) {
+        if( path.compare( 0, 4, "hex:" ) == 0 ) {
+            std::string bytes = unhex( path.substr( 4 ) );
+            FILE * tf = fopen( tmpname, "wb" );
+            if( !tf ) { fprintf( stderr, "cannot write %s\n", tmpname ); return 3; }
+            fwrite( bytes.data(), 1, bytes.size(), tf );
+            fclose( tf );
+            path = tmpname;
+        }
         fprintf( proto, "B %d\n", idx ); fflush( proto );
         auto t0 = std::chrono::steady_clock::now();
         alarm( budget > 0 ? budget : 1 );
@@ -93,6 +107,7 @@ static int run_files( const char * listfile ) {
         fflush( proto );
         idx++;
     }
+    unlink( tmpname );
     return 0;
 }
 
@@ -182,6 +197,8 @@ static int run_fn() {
             rec += ");";
             std::istringstream in( rec );
             InstMgr im; SF sf( reg, im );
+            std::istringstream hdr( "HEADER;FILE_DESCRIPTION((''),'2;1');FILE_NAME('','',(''),(''),'','','');FILE_SCHEMA(('C05A'));ENDSEC;" );
+            sf.ReadHeader( hdr );
             ErrorDescriptor e;
             SDAI_Application_instance * o = sf.CreateSubSuperInstance( in, 1, e );
             r << "ok obj=" << ( ( o && o != ENTITY_NULL ) ? 1 : 0 );
